@@ -863,12 +863,23 @@ impl<W: Word, B: AsRef<[W]> + AsMut<[W]>> BitFieldSliceMut<W> for BitFieldVec<W,
         let len = self.len();
         let bit_width = self.bit_width();
         if len <= chunk_size || (chunk_size * bit_width) % W::BITS == 0 {
+            let num_words = (len * bit_width).div_ceil(W::BITS);
+            let words_per_chunk = if len <= chunk_size {
+                // A single chunk containing all words (chunk_size * bit_width
+                // might not even be representable)
+                Ord::max(1, num_words)
+            } else if bit_width == 0 {
+                // There are no words to distribute, but the size of a chunk
+                // of words cannot be zero
+                1
+            } else {
+                (chunk_size * bit_width) / W::BITS
+            };
             Ok(ChunksMut {
                 remaining: len,
                 bit_width: self.bit_width,
                 chunk_size,
-                iter: self.bits.as_mut()[..(len * bit_width).div_ceil(W::BITS)]
-                    .chunks_mut((chunk_size * bit_width).div_ceil(W::BITS)),
+                iter: self.bits.as_mut()[..num_words].chunks_mut(words_per_chunk),
             })
         } else {
             Err(())
